@@ -1,0 +1,87 @@
+//go:build verif
+
+// Contracts for the hash part of LTable (table.go) and traversal (C09).
+// Comment-only; read by /verif/engine. See contracts_verif.go.
+
+package lua
+
+// Representation invariant of the hash part.
+//  keys/k2i: keys lists every key that was ever stored in strdict/dict, without duplicates, and k2i is its inverse;
+//  deleted keys may linger in keys (that is what keeps the position of a visited key stable during traversal).
+//@ define Inv_keys(tb *LTable) bool = offset(tb.keys) == 0 && ((arrid(tb.keys) == 0) <==> (tb.k2i == nil)) && (forall i int :: 0 <= i && i < len(tb.keys) ==> has(tb.k2i, tb.keys[i]) && tb.k2i[tb.keys[i]] == i) && (forall k LValue :: has(tb.k2i, k) ==> 0 <= tb.k2i[k] && tb.k2i[k] < len(tb.keys) && tb.keys[tb.k2i[k]] == k)
+//@ define Inv_dicts(tb *LTable) bool = (forall s string :: has(tb.strdict, s) ==> has(tb.k2i, mkStr(s)) && tb.strdict[s] != LNil && tb.strdict[s] != nil) && (forall k LValue :: has(tb.dict, k) ==> has(tb.k2i, k) && !isStr(k) && tb.dict[k] != LNil && tb.dict[k] != nil)
+//@ define Inv_hash(tb *LTable) bool = tb != nil && Inv_keys(tb) && Inv_dicts(tb) && (tb.k2i == nil ==> tb.strdict == nil || len(tb.strdict) == 0) && (arrid(tb.keys) == 0 || arrid(tb.keys) != arrid(tb.array))
+// the view of the hash part
+//@ define sget(tb *LTable, s string) LValue = ite(has(tb.strdict, s), tb.strdict[s], LNil)
+//@ define hget(tb *LTable, k LValue) LValue = ite(has(tb.dict, k), tb.dict[k], LNil)
+
+//@ func (*LTable).RawGetString [C04 C09]
+//@ requires tb != nil
+//@ noraise
+//@ ensures  result == sget(tb, key)
+//@ modifies nothing
+
+//@ func (*LTable).RawGetH [C09]
+//@ requires tb != nil
+//@ noraise
+//@ ensures  isStr(key) ==> result == sget(tb, str(key))
+//@ ensures  !isStr(key) ==> result == hget(tb, key)
+//@ modifies nothing
+
+//@ func (*LTable).RawSetString [C09]
+//@ requires Inv_hash(tb) && value != nil
+//@ noraise
+//@ ensures  Inv_hash(tb)
+//@ ensures  "stored": sget(tb, key) == value
+//@ ensures  "others": forall s string :: s != key ==> sget(tb, s) == old(sget(tb, s))
+//@ ensures  "dict-untouched": tb.dict == old(tb.dict) && forall k LValue :: hget(tb, k) == old(hget(tb, k))
+//@ ensures  "keys-grow": len(tb.keys) >= old(len(tb.keys)) && (forall i int :: 0 <= i && i < old(len(tb.keys)) ==> tb.keys[i] == old(tb.keys[i])) && (arrid(tb.keys) == old(arrid(tb.keys)) || fresh(tb.keys))
+//@ ensures  "array-untouched": tb.array == old(tb.array)
+//@ modifies tb.strdict, tb.keys, tb.k2i, tb.keys[*], tb.strdict{*}, tb.k2i{*}
+
+//@ func (*LTable).RawSetH [C09 C18]
+//@ requires Inv_hash(tb) && value != nil && key != nil
+//@ noraise
+//@ ensures  Inv_hash(tb)
+//@ ensures  "stored": isStr(key) ==> sget(tb, str(key)) == value
+//@ ensures  "stored-h": !isStr(key) ==> hget(tb, key) == value
+//@ ensures  "others-s": forall s string :: !(isStr(key) && s == str(key)) ==> sget(tb, s) == old(sget(tb, s))
+//@ ensures  "others-h": forall k LValue :: !(!isStr(key) && k == key) ==> hget(tb, k) == old(hget(tb, k))
+//@ ensures  "keys-grow": len(tb.keys) >= old(len(tb.keys)) && (forall i int :: 0 <= i && i < old(len(tb.keys)) ==> tb.keys[i] == old(tb.keys[i])) && (arrid(tb.keys) == old(arrid(tb.keys)) || fresh(tb.keys))
+//@ ensures  "array-untouched": tb.array == old(tb.array)
+//@ modifies tb.dict, tb.strdict, tb.keys, tb.k2i, tb.keys[*], tb.dict{*}, tb.strdict{*}, tb.k2i{*}
+
+// float64 <-> int conversions are uninterpreted (f2i, i2f) in the integer-mode queries; the facts used about them are
+// stated as axioms here and proved once, bit-precisely, as raw SMT lemmas in the floating-point theory.
+//@ axiom f2i_range : forall v float64, m int :: v == i2f(f2i(v)) && v > 0 && v < i2f(m) && m <= 4611686018427387904 ==> f2i(v) >= 1 && f2i(v) < m
+//@ lemma[C09 C18] f2i_range smt: (set-logic QF_FPBV) (define-sort F () (_ FloatingPoint 11 53)) (declare-const v F) (declare-const m (_ BitVec 64)) (define-fun f2i ((x F)) (_ BitVec 64) ((_ fp.to_sbv 64) RTZ x)) (define-fun i2f ((n (_ BitVec 64))) F ((_ to_fp 11 53) RNE n)) (assert (fp.eq v (i2f (f2i v)))) (assert (fp.gt v (_ +zero 11 53))) (assert (fp.lt v (i2f m))) (assert (bvsle m #x4000000000000000)) (assert (not (and (bvsge (f2i v) #x0000000000000001) (bvslt (f2i v) m))))
+//@ axiom i2f_nonpos : forall n int :: n <= 0 ==> !(i2f(n) > 0)
+//@ lemma[C09 C18] i2f_nonpos smt: (set-logic QF_FPBV) (define-sort F () (_ FloatingPoint 11 53)) (declare-const n (_ BitVec 64)) (define-fun i2f ((n (_ BitVec 64))) F ((_ to_fp 11 53) RNE n)) (assert (bvsle n #x0000000000000000)) (assert (fp.gt (i2f n) (_ +zero 11 53)))
+//@ axiom i2f_f2i : forall n int :: 0 - 9007199254740992 <= n && n <= 9007199254740992 ==> f2i(i2f(n)) == n && i2f(n) == i2f(f2i(i2f(n)))
+//@ lemma[C09 C18] i2f_f2i smt: (set-logic QF_FPBV) (define-sort F () (_ FloatingPoint 11 53)) (declare-const n (_ BitVec 64)) (define-fun f2i ((x F)) (_ BitVec 64) ((_ fp.to_sbv 64) RTZ x)) (define-fun i2f ((n (_ BitVec 64))) F ((_ to_fp 11 53) RNE n)) (assert (bvsle #xffe0000000000000 n)) (assert (bvsle n #x0020000000000000)) (assert (not (and (= (f2i (i2f n)) n) (fp.eq (i2f n) (i2f (f2i (i2f n)))))))
+
+// Key routing: an array key is an integral number in (0, MaxArrayIndex); isArrayKey is the real predicate (utils.go).
+//@ define arrKey(k LValue) bool = isNum(k) && isArrayKey(num(k))
+//@ define aget(tb *LTable, i int) LValue = ite(0 <= i && i < len(tb.array), tb.array[i], LNil)
+// view(tb, k): the value a table holds under key k
+//@ define view(tb *LTable, k LValue) LValue = ite(arrKey(k), aget(tb, f2i(num(k)) - 1), ite(isStr(k), sget(tb, str(k)), hget(tb, k)))
+
+//@ func (*LTable).RawGet [C04 C09]
+//@ requires tb != nil && offset(tb.array) == 0 && MaxArrayIndex <= 4611686018427387904
+//@ noraise
+//@ ensures  result == view(tb, key)
+//@ modifies nothing
+
+//@ func (*LTable).RawSet [C04 C09 C18]
+//@ requires Inv_arr(tb) && Inv_hash(tb) && value != nil && key != nil && MaxArrayIndex <= 4611686018427387904
+//@ noraise
+//@ ensures  Inv_arr(tb) && Inv_hash(tb)
+//@ ensures  "stored": view(tb, key) == value
+//@ ensures  "hash-others": !arrKey(key) ==> (forall s string :: !(isStr(key) && s == str(key)) ==> sget(tb, s) == old(sget(tb, s))) && (forall k LValue :: !(!isStr(key) && k == key) ==> hget(tb, k) == old(hget(tb, k))) && tb.array == old(tb.array) && (forall i int :: 0 <= i && i < len(tb.array) ==> tb.array[i] == old(tb.array[i]))
+//@ ensures  "array-others": arrKey(key) ==> (forall s string :: sget(tb, s) == old(sget(tb, s))) && (forall k LValue :: hget(tb, k) == old(hget(tb, k))) && len(tb.array) == old(max(len(tb.array), f2i(num(key)))) && (forall i int :: 0 <= i && i < old(len(tb.array)) && i != f2i(num(key)) - 1 ==> tb.array[i] == old(tb.array[i])) && (forall i int :: old(len(tb.array)) <= i && i < f2i(num(key)) - 1 ==> tb.array[i] == LNil)
+//@ ensures  arrid(tb.array) == old(arrid(tb.array)) || fresh(tb.array)
+//@ ensures  arrid(tb.keys) == old(arrid(tb.keys)) || fresh(tb.keys)
+//@ modifies tb.array, tb.array[*], tb.dict, tb.strdict, tb.keys, tb.k2i, tb.keys[*], tb.dict{*}, tb.strdict{*}, tb.k2i{*}
+//@ loop 1 invariant 0 <= i && i <= index - alen && Inv_arr(tb) && Inv_hash(tb) && len(tb.array) == alen + i && alen == old(len(tb.array)) && index == f2i(num(key)) - 1 && index > alen && arrid(tb.array) != 0 && (arrid(tb.array) == old(arrid(tb.array)) || fresh(tb.array)) && tb.keys == old(tb.keys) && tb.dict == old(tb.dict) && tb.strdict == old(tb.strdict) && tb.k2i == old(tb.k2i)
+//@ loop 1 invariant forall k int :: 0 <= k && k < alen ==> tb.array[k] == old(tb.array[k])
+//@ loop 1 invariant forall k int :: alen <= k && k < alen + i ==> tb.array[k] == LNil
